@@ -11,6 +11,9 @@ CONSTANTS
   MayFail = FALSE
   OutcomeSet = {}
   BackedSet = {FALSE}
+  FilterSet = {FALSE}
+  Budget = 2
+  BudgetMode = "per-load"
   RecordMode = "component"
   PoolSet = {FALSE}
   AssembleMode = "index"
